@@ -144,6 +144,20 @@ class SimOS(object):
     end = sim.fds.get(fd)
     if not isinstance(end, SimPipeEnd) or end.kind != "w":
       raise OSError(errno.EBADF, "Bad file descriptor")
+    cap = getattr(sim, "pipe_capacity", 65536)
+    if end.pipe[0] + len(data) > cap:
+      # a blocking write to a full pipe: the caller sleeps until somebody
+      # reads -- for ever, if the caller is the thread that would
+      sim.stats["ping_on_full_pipe"] += 1
+      eng = getattr(sim, "engine", None)
+      box = end.pipe
+      if eng is not None and eng.me() is not None:
+        eng.block(lambda: box[0] + len(data) <= cap, None)
+      else:
+        raise SimAbort("pinger-write-blocks-forever",
+                       "write() to a full pinger pipe (%d bytes pending): "
+                       "the writing thread would block with nobody left to "
+                       "read" % box[0])
     end.pipe[0] += len(data)
     sim.stats["ping"] += 1
     sim._poke()
